@@ -507,7 +507,8 @@ func NewEnclosedEnvironment(outer *Environment) *Environment {
 // set the function's name in that environment to avoid deep search for it.
 func NewFunctionEnvironment(fn Function, current *Environment) (*Environment, bool) {
 	parent := current
-	sameFunction := (current.cacheKey == fn.CacheKey)
+	// Same text isn't enough: two closures made by the same factory are different functions (different captures).
+	sameFunction := (current.cacheKey == fn.CacheKey) && current.function != nil && current.function.Env == fn.Env
 	if !sameFunction {
 		parent = fn.Env
 	}
